@@ -719,7 +719,10 @@ def check(run):
         if gen_ok:
             res = common.build_props("Props/C17.v", extra_targets=["Model/ErrorsCases.vo"])
             run.add_build(res, "make -C coq Props/C17.vo (coqc 8.16.1, full .vo) + Print Assumptions per theorem")
-            model_ok = res["ok"] or (res["failed_at"] or ("",))[0] not in ("Gen/C17Classes.v", "Model/Errors.v", "Model/ErrorsCases.v")
+            model_ok = res["ok"]
+            if not res["ok"]:
+                # a proof broke: the model itself may still evaluate (Model/ files contain no proofs)
+                model_ok, _ = common.make(["Model/ErrorsCases.vo", "Gen/C17Classes.vo"])
         else:
             run.coverage["obligations"] += len(common.theorems_in("Props/C17.v"))
             model_ok = False
